@@ -980,6 +980,9 @@ rrul_fill_yly(echs_instant_t *restrict tgt, size_t nti, rrulsp_t rr)
 	size_t nd;
 	size_t res = 0UL;
 	size_t tries;
+	/* date of the candidate seen last */
+	unsigned int prev_y = 0U;
+	int prev_yd = 0;
 	uint8_t wd_mask = 0U;
 	bool ymdp;
 	struct enum_s e;
@@ -1107,6 +1110,13 @@ rrul_fill_yly(echs_instant_t *restrict tgt, size_t nti, rrulsp_t rr)
 		for (int iy = -1; iy <= 1; iy++) {
 			for (bitint_iter_t all = 0UL;
 			     res < nti && (yd = bi383_next(&all, &cand[(iy != 0) << (iy > 0)]), all);) {
+				if (UNLIKELY(y + iy == prev_y && yd == prev_yd)) {
+					/* a shift has put dates of adjacent periods
+					 * on one and the same day, it's still a set */
+					continue;
+				}
+				prev_y = y + iy, prev_yd = yd;
+
 				for (ENUM_INIT(e, iS, iM, iH);
 				     ENUM_COND(e, iS, iM, iH);
 				     ENUM_ITER(e, iS, iM, iH)) {
@@ -1159,6 +1169,9 @@ rrul_fill_mly(echs_instant_t *restrict tgt, size_t nti, rrulsp_t rr)
 	size_t nd;
 	size_t res = 0UL;
 	size_t tries;
+	/* date of the candidate seen last */
+	unsigned int prev_y = 0U;
+	int prev_yd = 0;
 	uint8_t wd_mask = 0U;
 	bool ymdp;
 	struct enum_s e;
@@ -1288,6 +1301,13 @@ rrul_fill_mly(echs_instant_t *restrict tgt, size_t nti, rrulsp_t rr)
 		for (int iy = -1; iy <= 1; iy++) {
 			for (bitint_iter_t all = 0UL;
 			     res < nti && (yd = bi383_next(&all, &cand[(iy != 0) << (iy > 0)]), all);) {
+				if (UNLIKELY(y + iy == prev_y && yd == prev_yd)) {
+					/* a shift has put dates of adjacent periods
+					 * on one and the same day, it's still a set */
+					continue;
+				}
+				prev_y = y + iy, prev_yd = yd;
+
 				for (ENUM_INIT(e, iS, iM, iH);
 				     ENUM_COND(e, iS, iM, iH);
 				     ENUM_ITER(e, iS, iM, iH)) {
